@@ -459,3 +459,82 @@ def run(res, facts, tier):
     r4_find(res, facts)
     r5_priority(res, facts)
     r6_alternative(res, facts)
+    r7_imports(res, facts)
+
+
+def r7_imports(res, facts):
+    """import precedence: the imports of a stylesheet are searched in the order of m_imports (highest precedence first), each with
+    findTemplate — which is also what descends into that import's own imports — and the search stops only at a match."""
+    from .c09 import natural_loops
+    r = res.rule('C10-R7', 'findTemplateInImports: one loop over m_imports from index 0 upwards; every iteration calls findTemplate on that import (nothing skips an import: the call '
+                 'is also the only way into the import\'s own imports); the only early exit is a rule that matched; Stylesheet::addImport puts a later (higher-precedence) import first', floor=4)
+    a = facts.asts('Stylesheet::findTemplateInImports')[0]
+    cfg = CFG(a)
+    loops = natural_loops(cfg)
+    if len(loops) != 1:
+        r.violation('findTemplateInImports: loop', '%d loops where one loop over m_imports is expected' % len(loops), common.file_line(a))
+        return r
+    h, body = next(iter(loops.items()))
+
+    def is_find(n):
+        return n.ast is not None and any((c.get('n') or '') == 'findTemplate' and c.get('k') == 'MCall' for c in calls(n.ast))
+    finds = [cfg.nodes[i] for i in body if is_find(cfg.nodes[i])]
+    if not finds:
+        r.violation('findTemplateInImports: findTemplate', 'the loop does not call findTemplate', common.file_line(a))
+        return r
+    # every path from the loop condition's true branch back to the head (or out of the loop) passes the call
+    head = cfg.nodes[h]
+    seen = set()
+    work = list(head.succ)
+    skipped = None
+    while work:
+        n = work.pop()
+        if n.id in seen:
+            continue
+        seen.add(n.id)
+        if is_find(n):
+            continue
+        if n.id == h:
+            skipped = 'reaches the next iteration'
+            break
+        if n.id not in body:
+            # leaving the loop before the call: fine only through the loop condition (no more imports)
+            continue
+        work.extend(n.succ)
+    # the loop condition node is the first cond after the head; an exit from it is the normal end
+    if skipped:
+        r.violation('findTemplateInImports: every import is searched', 'a path through the loop body %s without calling findTemplate on the import: the import — and every stylesheet it '
+                    'imports itself — is skipped, so a lower-precedence or built-in rule is chosen' % skipped, common.file_line(a, finds[0].ast))
+    else:
+        r.ok('findTemplateInImports: every iteration calls findTemplate on m_imports[i]')
+    # receiver of the call is the i-th import; index runs upwards from 0
+    txt = pp(finds[0].ast)
+    decl = [x for x in walk(a['body']) if x.get('k') == 'Decl' and any('m_imports[' in pp(v.get('init')) for v in x.get('vars', []) if v.get('init') is not None)]
+    fors = [x for x in walk(a['body']) if x.get('k') == 'For']
+    ok_order = bool(fors) and fors[0].get('init') is not None and ' = 0' in (pp(fors[0]['init']) + ' = ' + ''.join(str(strip_casts(v.get('init')).get('cv')) for v in fors[0]['init'].get('vars', []) if v.get('init') is not None)) \
+        and fors[0].get('inc') is not None and '++' in pp(fors[0]['inc']) and decl
+    if ok_order:
+        r.ok('findTemplateInImports: index 0 upwards over m_imports')
+    else:
+        r.violation('findTemplateInImports: order', 'the loop is not "for (i = 0; i < m_importsSize; ++i) m_imports[i]"', common.file_line(a))
+    # early exits: returns inside the loop are guarded by bestMatchedRule != 0
+    must = common.must_conds(cfg)
+    bad = []
+    for i in body:
+        n = cfg.nodes[i]
+        if n.ast is not None and n.ast.get('k') == 'Return':
+            conds = [(pp(common.norm_atom(at, br)[0]), common.norm_atom(at, br)[1]) for at, br in must.get(n.id, [])]
+            if not any(('bestMatchedRule' in t and '0' in t) for t, b in conds):
+                bad.append(n)
+    if bad:
+        r.violation('findTemplateInImports: early exit', 'a return inside the loop is not guarded by "a rule matched"', common.file_line(a, bad[0].ast))
+    else:
+        r.ok('findTemplateInImports: returns inside the loop only with a matched rule')
+    # addImport: a later import has higher precedence and must be found first
+    for b in facts.asts('Stylesheet::addImport', must=False):
+        ins = [c for c in calls(b['body']) if c.get('k') == 'MCall' and c.get('n') in ('insert', 'push_back') and 'm_imports' in pp(c.get('obj'))]
+        if ins and ins[0]['n'] == 'insert' and 'm_imports.begin()' in pp(ins[0]['args'][0]):
+            r.ok('Stylesheet::addImport: inserts at m_imports.begin()')
+        else:
+            r.violation('Stylesheet::addImport', 'a newly imported stylesheet is not put in front of the earlier imports (%s): the first xsl:import would win' % (pp(ins[0])[:60] if ins else 'no insertion'), common.file_line(b))
+    return r
